@@ -161,12 +161,64 @@ fn run_calls(sc: &Scenario, t: usize, bad: &std::sync::Mutex<Vec<String>>) {
     }
 }
 
+/// Concurrent writers and readers of the process-wide choice, nothing else: two writers alternate
+/// between AlwaysAnsi and Always, two readers poll.  A read may only see one of those two values
+/// (the register is pre-set to Always, so Auto and Never are values nobody wrote), and once the
+/// writers have finished the register holds the last write of one of them.
+fn register_stress(bad: &std::sync::Mutex<Vec<String>>, rounds: usize) {
+    ColorChoice::Always.write_global();
+    let writers: Vec<_> = (0..2usize)
+        .map(|w| {
+            std::thread::spawn(move || {
+                let mut last = 0u8;
+                for i in 0..rounds {
+                    let v = if (i + w) % 2 == 0 { 1u8 } else { 2u8 };
+                    choice_of(v).write_global();
+                    last = v;
+                }
+                last
+            })
+        })
+        .collect();
+    let readers: Vec<_> = (0..2usize)
+        .map(|_| {
+            std::thread::spawn(move || {
+                let mut seen = Vec::new();
+                for _ in 0..rounds + 2 {
+                    seen.push(code_of(ColorChoice::global()));
+                }
+                seen
+            })
+        })
+        .collect();
+    let lasts: Vec<u8> = writers.into_iter().map(|h| h.join().unwrap()).collect();
+    for (r, h) in readers.into_iter().enumerate() {
+        for v in h.join().unwrap() {
+            if v != 1 && v != 2 {
+                bad.lock().unwrap().push(format!("stress: reader {r} saw {:?}, a value no thread wrote", choice_of(v)));
+            }
+        }
+    }
+    let fin = code_of(ColorChoice::global());
+    if !lasts.contains(&fin) {
+        bad.lock().unwrap().push(format!(
+            "stress: writers finished with last writes {:?} but the register holds {:?}",
+            lasts.iter().map(|v| choice_of(*v)).collect::<Vec<_>>(),
+            choice_of(fin)
+        ));
+    }
+}
+
 fn child(scen_seed: u64) -> i32 {
     let sc = std::sync::Arc::new(generate(scen_seed));
+    let bad = std::sync::Arc::new(std::sync::Mutex::new(Vec::<String>::new()));
+    if sc.register {
+        register_stress(&bad, 40);
+        ColorChoice::Auto.write_global();
+    }
     if sc.pass {
         ColorChoice::AlwaysAnsi.write_global();
     }
-    let bad = std::sync::Arc::new(std::sync::Mutex::new(Vec::<String>::new()));
     let mut hs = Vec::new();
     for t in 1..sc.threads.len() {
         let (sc2, bad2) = (sc.clone(), bad.clone());
